@@ -10,7 +10,7 @@ import (
 	"strings"
 )
 
-var c09TagPool = []string{"id", "name", "a", "b", "role", "x-id", "q", "note", "owner", "admin", "x", "y", "token", "page", "ids[]", "tags[]"}
+var c09TagPool = []string{"id", "name", "a", "b", "role", "x-id", "q", "note", "owner", "admin", "x", "y", "token", "page", "ids[]", "tags[]", "-"}
 
 type c09GenLeaf struct {
 	Tags map[string]string
@@ -212,6 +212,8 @@ func c09GenData(r *rand.Rand, src string, leaves []c09GenLeaf, names []string, h
 			} else if len(names) > 0 {
 				add(c09NearMiss(r, names[r.Intn(len(names))]), "string")
 			}
+		case k < 96: // the key of length 0 (`?=v`, body `=v`, a path parameter / header without a name)
+			add("", lf.Kind)
 		default:
 			add([]string{"junk", "IsAdmin", "Role", "admin", "nested.owner", "Nested.Owner", "F0.F0", "f0[f0]"}[r.Intn(8)], "string")
 		}
@@ -319,11 +321,21 @@ func c09XMLBody(r *rand.Rand, fields []c09Field) string {
 
 func c09GenCase(r *rand.Rand) *c09Case {
 	c := &c09Case{InitSeed: r.Int63()}
-	var leaves []c09GenLeaf
+	var leaves, hotTwin []c09GenLeaf
 	switch k := r.Intn(100); {
-	case k < 70:
+	case k < 68:
 		c.Dest = "struct"
 		c.Fields = c09GenFields(r, 0, "", &leaves)
+	case k < 76: // one of several distinct types that print alike, bound after the others
+		fam := c09TwinFamilyNames[r.Intn(len(c09TwinFamilyNames))]
+		vs := c09TwinFamilies[fam]
+		k := r.Intn(len(vs))
+		c.Dest = fmt.Sprintf("twin:%s:%d", fam, k)
+		c.Warm = c09TwinWarm(r, fam, k)
+		hotTwin = c09TypeLeaves(vs[k])
+		for _, t := range vs { // keys are aimed at the tags of the whole family
+			leaves = append(leaves, c09TypeLeaves(t)...)
+		}
 	case k < 88:
 		name := c09CatNames[r.Intn(len(c09CatNames))]
 		c.Dest = "cat:" + name
@@ -345,6 +357,16 @@ func c09GenCase(r *rand.Rand) *c09Case {
 	var hot []c09GenLeaf
 	for i := 0; i < r.Intn(3) && len(leaves) > 0; i++ {
 		hot = append(hot, leaves[r.Intn(len(leaves))])
+	}
+	if len(hotTwin) > 0 {
+		hot = append(hot, hotTwin[r.Intn(len(hotTwin))])
+	}
+	// the same type through another source first, or some other type first (any destination)
+	if c.Warm == nil && (c.Dest == "struct" || strings.HasPrefix(c.Dest, "cat:")) && r.Intn(8) == 0 {
+		c.Warm = []c09WarmStep{{Dest: "self", Op: c09WarmOps[r.Intn(len(c09WarmOps))]}}
+		if r.Intn(2) == 0 {
+			c.Warm = append(c.Warm, c09WarmStep{Dest: "cat:" + c09CatNames[r.Intn(len(c09CatNames))], Op: c09WarmOps[r.Intn(len(c09WarmOps))]})
+		}
 	}
 	pBad := []int{0, 0, 6, 25}[r.Intn(4)]
 	switch k := r.Intn(100); {
@@ -539,10 +561,132 @@ func c09Gen(r *rand.Rand, tier string) []any {
 	}
 	out := c09NearMissBlock(r)
 	out = append(out, c09FilesBlock(r)...)
+	out = append(out, c09ProcessBlock(r)...)
 	for i := 0; i < n; i++ {
 		out = append(out, c09GenCase(r))
 	}
 	return out
+}
+
+var c09WarmOps = []string{"param", "query", "header", "form"}
+
+// warm-up of a twin case: every OTHER variant of the family first (random order, one or two
+// sources each), sometimes the target itself through another source — then the target is bound
+func c09TwinWarm(r *rand.Rand, fam string, k int) []c09WarmStep {
+	var out []c09WarmStep
+	for _, j := range r.Perm(len(c09TwinFamilies[fam])) {
+		if j == k {
+			continue
+		}
+		d := fmt.Sprintf("twin:%s:%d", fam, j)
+		out = append(out, c09WarmStep{Dest: d, Op: c09WarmOps[r.Intn(len(c09WarmOps))]})
+		if r.Intn(2) == 0 {
+			out = append(out, c09WarmStep{Dest: d, Op: c09WarmOps[r.Intn(len(c09WarmOps))]})
+		}
+	}
+	if r.Intn(3) == 0 {
+		out = append(out, c09WarmStep{Dest: "self", Op: c09WarmOps[r.Intn(len(c09WarmOps))]})
+	}
+	return out
+}
+
+// deterministic block: every ordered pair (first, second) of a twin family x every source: `first`
+// is bound through that source, then `second` receives every tag name of the family; and the empty
+// key through every source into every catalogue type and twin
+func c09ProcessBlock(r *rand.Rand) []any {
+	var out []any
+	for _, fam := range c09TwinFamilyNames {
+		vs := c09TwinFamilies[fam]
+		names := map[string]bool{}
+		for _, t := range vs {
+			c09AllTagNames(t, names)
+		}
+		var keys []string
+		for n := range names {
+			keys = append(keys, n)
+		}
+		sortStrings(keys)
+		kvs := func(val string) []c09KV {
+			var l []c09KV
+			for _, n := range keys {
+				l = append(l, c09KV{K: n, V: []string{val}})
+			}
+			return l
+		}
+		for first := range vs {
+			for second := range vs {
+				if first == second {
+					continue
+				}
+				for _, op := range c09WarmOps {
+					c := &c09Case{Dest: fmt.Sprintf("twin:%s:%d", fam, second), InitSeed: r.Int63(),
+						Warm: []c09WarmStep{{Dest: fmt.Sprintf("twin:%s:%d", fam, first), Op: op}}}
+					val := []string{"1", "5", "77"}[r.Intn(3)]
+					switch op {
+					case "param":
+						c.Op, c.Params = "param", kvs(val)
+					case "query":
+						c.Op, c.Query = []string{"query", "bind"}[r.Intn(2)], kvs(val)
+						c.Method = "GET"
+					case "header":
+						c.Op, c.Header = "header", kvs(val)
+					default:
+						c.Op, c.Method, c.Form = []string{"bind", "body"}[r.Intn(2)], "POST", kvs(val)
+						c.BodyKind, c.CType = "form", "application/x-www-form-urlencoded"
+					}
+					out = append(out, c)
+				}
+			}
+		}
+	}
+	// the empty key
+	var dests []string
+	for _, n := range c09CatNames {
+		dests = append(dests, "cat:"+n)
+	}
+	for _, fam := range c09TwinFamilyNames {
+		for k := range c09TwinFamilies[fam] {
+			dests = append(dests, fmt.Sprintf("twin:%s:%d", fam, k))
+		}
+	}
+	for _, d := range dests {
+		for _, src := range []string{"param", "query", "bind-get", "header", "form", "body", "multipart"} {
+			for _, val := range []string{"1", "admin"} {
+				kv := []c09KV{{K: "", V: []string{val}}}
+				if r.Intn(3) == 0 {
+					kv = append(kv, c09KV{K: "id", V: []string{"3"}})
+				}
+				c := &c09Case{Dest: d, InitSeed: r.Int63()}
+				switch src {
+				case "param":
+					c.Op, c.Params = "param", kv
+				case "query":
+					c.Op, c.Query = "query", kv
+				case "bind-get":
+					c.Op, c.Method, c.Query, c.Params = "bind", "GET", kv, kv
+				case "header":
+					c.Op, c.Header = "header", kv
+				case "form":
+					c.Op, c.Method, c.Form, c.BodyKind, c.CType = "bind", "POST", kv, "form", "application/x-www-form-urlencoded"
+				case "body":
+					c.Op, c.Method, c.Form, c.BodyKind, c.CType = "body", "PUT", kv, "form", "application/x-www-form-urlencoded"
+				default:
+					c.Op, c.Method, c.Form, c.BodyKind, c.CType = "bind", "POST", kv, "multipart", c09MultipartCT
+					c.Files = []c09KV{{K: "", V: []string{"up.txt"}}}
+				}
+				out = append(out, c)
+			}
+		}
+	}
+	return out
+}
+
+func sortStrings(l []string) {
+	for i := 1; i < len(l); i++ {
+		for j := i; j > 0 && l[j] < l[j-1]; j-- {
+			l[j], l[j-1] = l[j-1], l[j]
+		}
+	}
 }
 
 // deterministic block for multipart uploads: the two file catalogue types x file names under the
@@ -730,6 +874,9 @@ func c09Shrink(ci any) []any {
 			out = append(out, &d)
 		}
 	}
+	// warm-up steps are never dropped: shrinking runs inside the process in which the failure was
+	// seen, where process-wide state (the very thing these steps are for) is already set up, so a
+	// case without them would still fail there but not when replayed in a fresh process
 	for _, l := range c09DropKV(c.Files) {
 		d := *c
 		d.Files = l
